@@ -533,7 +533,11 @@ class UUID:
                 self.packed = pack('<H', uuid)
                 self.type = UUID.TYPE_16
             elif 0 <= uuid <= 0xFFFFFFFFFFFFFFFFFFFFFFFFFFFFFFFF:
-                self.uuid = f"{uuid:032X}"
+                # Canonical 8-4-4-4-12 text, as produced when built from 16 bytes
+                # (32 hex digits without dashes cannot be read back by UUID(str))
+                text = f"{uuid:032x}"
+                self.uuid = "-".join((text[:8], text[8:12], text[12:16],
+                                      text[16:20], text[20:]))
                 # modified solution from http://www.codegur.site/6877096/how-to-
                 # pack-a-uuid-into-a-struct-in-python
                 self.packed = pack('<QQ', uuid & 0xFFFFFFFFFFFFFFFF,
